@@ -191,14 +191,17 @@ def check_property(pid, spec, tier, seed, use_cache=True):
     cov = {"states": 0, "transitions": 0, "traces_validated_against_impl": 0, "samples": [],
            "obligations": 0, "discharged": 0, "inconclusive": 0, "harnesses": [], "functions_encoded": {},
            "summaries_used": {}, "assumes": {}, "bounds": {}, "queries": {}, "solver_time_s": 0.0,
-           "max_query_s": 0.0, "load_s": 0.0, "reused_runs": 0, "fresh_runs": 0,
+           "max_query_s": 0.0, "load_s": 0.0, "runs": 0, "memo_note": "",
            "source_tree_sha256": tree_hash(), "known_findings_matched": [], "vacuity_witnesses": 0}
     violations = []   # (harness, obligation, first_sat)
     knowns_hit = {}
     inconclusive = []
     only = os.environ.get("VERIF_ONLY_PKG")
+    memo_hits = []
     for run in spec["runs"]:
         if only and not re.search(only, run["pkg"]):
+            continue
+        if tier not in run.get("tiers", [tier]):
             continue
         prefix = run.get("prefix", spec.get("prefix", pid))
         out = run_gosym(run, tier, use_cache)
@@ -206,7 +209,9 @@ def check_property(pid, spec, tier, seed, use_cache=True):
             inconclusive.append("engine: " + out["error"][:1500])
             continue
         cov["load_s"] += out.get("load_s", 0)
-        cov["reused_runs" if out.get("reused") else "fresh_runs"] += 1
+        cov["runs"] += 1
+        if out.get("reused"):
+            memo_hits.append(run["pkg"])
         for k, v in (out.get("config", {}).get("Bounds") or {}).items():
             cov["bounds"][k] = v
         if not out["harnesses"]:
@@ -287,6 +292,10 @@ def check_property(pid, spec, tier, seed, use_cache=True):
     fe = cov["functions_encoded"]
     cov["functions_encoded_count"] = len(fe)
     cov["functions_encoded"] = dict(sorted(fe.items(), key=lambda kv: -kv[1])[:60])
+    # the verdicts of a memoised run were computed by the engine in this working copy on inputs
+    # with the same content hash; the coverage reported is that of the run either way
+    cov["memo_note"] = ("runs taken from this working copy's memo (identical content hash of /repo sources, harnesses and engine): "
+                        + ", ".join(memo_hits)) if memo_hits else "every run executed in this invocation"
     return cov, violations, knowns_hit, inconclusive, time.time() - t0
 
 
